@@ -15,16 +15,16 @@ from common import NCPU, Machinery, Scratch, nucs_env, read_ndjson, run_workers,
 # focus -> knobs of the item generator
 FOCUS = {
     "C01": dict(solo=True, branching=True, modes=["solve", "solve", "min", "max"], ca=None, reuse=True),
-    "C02": dict(solo=True, branching=True, modes=["solve"], ca=None, reorder=True, allcfg=True, decision_orders=True, reuse=True),
+    "C02": dict(solo=True, branching=True, modes=["solve"], ca=None, reorder=True, allcfg=True, decision_orders=True, reuse=True, wide=True),
     "C03": dict(modes=["min", "max"], ca=None, allvars=True, reuse=True),
     "C04": dict(decision_orders=True, modes=["solve", "solve", "min"], ca=None, flavours=["circuit", "alias", "alias", "int", "bool"]),
     "C07": dict(solo=True, modes=["solve", "solve", "min", "max"], ca=None, flavours=["int", "int", "bool", "alias"]),
     "C08": dict(modes=["solve", "solve", "min", "max"], ca=0, flavours=["int", "int", "bool", "circuit", "alias"]),
-    "C09": dict(branching=True, modes=["solve", "solve", "min"], ca=None, allcfg=True),
+    "C09": dict(branching=True, modes=["solve", "solve", "min"], ca=None, allcfg=True, wide=True),
     "C10": dict(modes=["solve", "solve", "min", "max"], ca=1, decision_orders=True),
-    "C17": dict(modes=["solve", "solve", "min", "max"], ca=None, limits=True),
+    "C17": dict(modes=["solve", "solve", "min", "max"], ca=None, limits=True, reuse=True),
     "C16": dict(modes=["solve", "min"], ca=None),
-    "C19": dict(modes=["solve", "solve", "min"], ca=None, heights=[1, 2, 2, 3, 3, 4, 5]),
+    "C19": dict(modes=["solve", "solve", "min"], ca=None, heights=[1, 2, 2, 3, 3, 4, 5], wide=True),
 }
 SIZES = {"quick": 2400, "thorough": 60000}
 
@@ -180,6 +180,34 @@ def decision_order_items(tier: str, seed: int, focus: str):
     return out
 
 
+def wide_items(tier: str, seed: int, focus: str):
+    """Problems with MORE THAN 256 shared domains: 256 (or 300) instantiated domains first, then the free domains of a
+    small problem at indices >= 256 - every index the engine records (the domain of a saved alternative, a decision
+    domain, a position of a constraint) needs more than 8 bits.  All five value heuristics."""
+    r = random.Random(seed * 131 + 9)
+    fam = [P for P in problems.small_family() if all(lo < hi for lo, hi in P["doms"])]
+    r.shuffle(fam)
+    knobs = FOCUS[focus]
+    out = []
+    n = 14 if tier == "quick" else 120
+    for k in range(n):
+        Q = fam[k % len(fam)]
+        pad = 256 if k % 2 == 0 else 300
+        doms = [[j % 3, j % 3] for j in range(pad)] + [list(d) for d in Q["doms"]]
+        nd = len(doms)
+        props = [{"vars": [v + pad for v in c["vars"]], "alg": c["alg"], "params": list(c["params"])} for c in Q["props"]]
+        # a second constraint ties a padded (instantiated) domain to a free one, so that low and high indices meet
+        props.append({"vars": [k % pad, pad], "alg": "affine_leq", "params": [1, -1, 2]})
+        P = {"doms": doms, "vidx": list(range(nd)), "voff": [0] * nd, "props": props}
+        for dh in ((0, 1, 2, 3) if knobs.get("branching") else (k % 4,)):
+            mode = knobs["modes"][(k + dh) % len(knobs["modes"])]
+            it = {"P": P, "cfg": {"ca": knobs["ca"] if knobs.get("ca") is not None else (1 if k % 5 == 0 else 0), "vh": k % 3, "dh": dh, "height": 64}, "mode": mode}
+            if mode != "solve":
+                it["var"] = pad + (k % 2)
+            out.append(it)
+    return out
+
+
 def reuse_items(tier: str, seed: int, focus: str):
     """The same BacktrackSolver object called a second time: an earlier (unobserved) exhaustive enumeration, partial
     enumeration, minimisation or maximisation, then the recorded call.  Every call is a call of the properties."""
@@ -206,6 +234,8 @@ def build_items(tier: str, seed: int, focus: str, n: int | None = None):
     if n is None:
         if FOCUS[focus].get("reuse"):
             items += reuse_items(tier, seed, focus)
+        if FOCUS[focus].get("wide"):
+            items += wide_items(tier, seed, focus)
         items += systematic_items(tier, seed, focus)
         if FOCUS[focus].get("decision_orders"):
             items += decision_order_items(tier, seed, focus)
